@@ -163,6 +163,17 @@ def run(ctx):
                     prfs = {S: thresha.PRF(keys[S], q) for S in subsets if i in S}
                     shares.append(thresha.pseudorandom_share(F, m, i, prfs, uci, n))
                     zsh.append(thresha.pseudorandom_share_zero(F, m, i, prfs, uci, n))
+                    if have_np and hasattr(thresha, 'np_pseudorandom_share'):
+                        # array variants on the same keys must give the same shares (extension-field arithmetic)
+                        for nm, fn, ref in (('np_pseudorandom_share', thresha.np_pseudorandom_share, shares[-1]),
+                                            ('np_pseudorandom_share_0', thresha.np_pseudorandom_share_0, zsh[-1])):
+                            arr = fn(F, m, i, prfs, uci, n)
+                            got = [a if isinstance(a, F) else F(a) for a in list(arr)]
+                            want = [a if isinstance(a, F) else F(a) for a in ref]
+                            nx += 1
+                            if got != want:
+                                ctx.violation('np-prss-ext-field-differs-from-list-variant %s GF(%d^%d) m=%d t=%d' % (nm, pp, dd, m, t),
+                                              {'party': i, 'np': [str(a) for a in got], 'list': [str(a) for a in want]})
                 for h in range(n):
                     for (vec, deg, want0) in ((shares, t, None), (zsh, 2 * t, F(0))):
                         pts = [(i + 1, [vec[i][h]]) for i in range(m)]
